@@ -36,8 +36,8 @@ def maxInt (a b : Int) : Int := if a > b then a else b
 def two64 : Int := 18446744073709551616
 def two32 : Int := 4294967296
 
-/-- Go `uint(x)` for an `int` x -/
-def toUint (x : Int) : Nat := (x % two64).toNat
+/-- Go `uint(x)` for an `int` x (`-2^63 ≤ x < 2^63`): `x` itself when non-negative, else `x + 2^64` -/
+def toUint (x : Int) : Nat := if 0 ≤ x then x.toNat else (x + two64).toNat
 
 /-- `conv.IntsToUints` -/
 def intsToUints (l : Idx) : List Nat := l.map toUint
@@ -270,7 +270,7 @@ def createDs (dims : List Nat) (t : Tree) (cur : Path) (comps : List String) : T
   match _h : stripLead comps with
   | [] => (t, .panic "index-out-of-range")
   | [name] =>
-    if name = "" then (t, .err "create")
+    if name = "" ∨ name = "." then (t, .err "create")     -- the library refuses an empty name
     else match find t (cur ++ [name]) with
       | some _ => (t, .err "create")
       | none => (t ++ [(cur ++ [name], .ds dims (List.replicate (prodN dims) 0))], .ok (cur ++ [name]))
